@@ -83,14 +83,19 @@ def getUpd (fs : FS) (p : Path) (n : Option Node) (q : Path) : Option Node :=
   if q = [] then some (.dir 0) else if q = p then n else fs.get q
 
 theorem observer_noop (o : Op) (fs : FS)
-    (h : (∃ p, o = .stat p) ∨ (∃ p, o = .openr p) ∨ (∃ p i, o = .read p i) ∨ (∃ p, o = .opendir p) ∨
+    (h : (∃ p, o = .stat p) ∨ (∃ p, o = .openr p) ∨ (∃ p i, o = .read p i) ∨ (∃ p g, o = .opendir p g) ∨
          (∃ p i, o = .readdir p i)) : (apply o fs).2 = fs := by
-  rcases h with ⟨p, rfl⟩ | ⟨p, rfl⟩ | ⟨p, i, rfl⟩ | ⟨p, rfl⟩ | ⟨p, i, rfl⟩
+  rcases h with ⟨p, rfl⟩ | ⟨p, rfl⟩ | ⟨p, i, rfl⟩ | ⟨p, g, rfl⟩ | ⟨p, i, rfl⟩
   · rfl
   · simp only [apply]; split <;> rfl
   · rfl
-  · simp only [apply]; split <;> rfl
+  · simp only [apply]; split
+    · rfl
+    · split <;> rfl
   · rfl
+
+theorem lstat_noop (p : Path) (g : Option Nat) (fs : FS) : (apply (.lstat p g) fs).2 = fs := by
+  simp only [apply]; split <;> rfl
 
 theorem mkdir_spec (p : Path) (fs : FS) :
     ((apply (.mkdir p) fs).2 = fs ∧ (apply (.mkdir p) fs).1 ≠ .ok) ∨
@@ -142,27 +147,33 @@ theorem write_spec (p : Path) (i : Nat) (d : Bytes) (fs : FS) :
   refine ⟨rfl, rfl, rfl, fun q => ?_⟩
   exact get_write fs i d q
 
-theorem unlink_spec (p : Path) (fs : FS) :
-    ((apply (.unlink p) fs).2 = fs ∧ (apply (.unlink p) fs).1 ≠ .ok) ∨
-    (∃ i c, fs.get p = some (.file i c) ∧ (apply (.unlink p) fs).1 = .ok ∧
-      (apply (.unlink p) fs).2.next = fs.next ∧ (apply (.unlink p) fs).2.orphans = (p, i, c) :: fs.orphans ∧
-      ∀ q, (apply (.unlink p) fs).2.get q = getUpd fs p none q) := by
+theorem unlink_spec (p : Path) (g : Option Nat) (fs : FS) :
+    ((apply (.unlink p g) fs).2 = fs ∧ (apply (.unlink p g) fs).1 ≠ .ok) ∨
+    (∃ i c, fs.get p = some (.file i c) ∧ guardOK fs p g = true ∧ (apply (.unlink p g) fs).1 = .ok ∧
+      (apply (.unlink p g) fs).2.next = fs.next ∧ (apply (.unlink p g) fs).2.orphans = (p, i, c) :: fs.orphans ∧
+      ∀ q, (apply (.unlink p g) fs).2.get q = getUpd fs p none q) := by
   simp only [apply]
+  by_cases hgd : guardOK fs p g = true
+  case neg => left; simp [hgd]
+  simp only [hgd, Bool.not_true, Bool.false_eq_true, if_false]
   split
   · left; simp
   · left; simp
   · rename_i i c hp
     right
-    refine ⟨i, c, hp, rfl, rfl, rfl, fun q => ?_⟩
+    refine ⟨i, c, hp, (by first | exact hgd | trivial), rfl, rfl, rfl, fun q => ?_⟩
     show (fs.erase p).get q = _
     rw [get_erase]; rfl
 
-theorem rmdir_spec (p : Path) (fs : FS) :
-    ((apply (.rmdir p) fs).2 = fs ∧ (apply (.rmdir p) fs).1 ≠ .ok) ∨
-    (∃ j, fs.get p = some (.dir j) ∧ p ≠ [] ∧ (fs.children p).isEmpty = true ∧ (apply (.rmdir p) fs).1 = .ok ∧
-      (apply (.rmdir p) fs).2.next = fs.next ∧ (apply (.rmdir p) fs).2.orphans = fs.orphans ∧
-      ∀ q, (apply (.rmdir p) fs).2.get q = getUpd fs p none q) := by
+theorem rmdir_spec (p : Path) (g : Option Nat) (fs : FS) :
+    ((apply (.rmdir p g) fs).2 = fs ∧ (apply (.rmdir p g) fs).1 ≠ .ok) ∨
+    (∃ j, fs.get p = some (.dir j) ∧ p ≠ [] ∧ (fs.children p).isEmpty = true ∧ (apply (.rmdir p g) fs).1 = .ok ∧
+      (apply (.rmdir p g) fs).2.next = fs.next ∧ (apply (.rmdir p g) fs).2.orphans = fs.orphans ∧
+      ∀ q, (apply (.rmdir p g) fs).2.get q = getUpd fs p none q) := by
   simp only [apply]
+  by_cases hgd : guardOK fs p g = true
+  case neg => left; simp [hgd]
+  simp only [hgd, Bool.not_true, Bool.false_eq_true, if_false]
   split
   · left; simp
   · left; simp
